@@ -365,6 +365,13 @@ def cmd_check(pid, tier, replay=None):
                 n = tot["known"].get(f["key"], 0)
                 print("KNOWN-FINDING: property=%s %s [key=%s observed=%d]" % (pid, f.get("what", ""), f["key"], n))
         harness_v = [v for v in viols if v[1] == "harness"]
+        real_v = [v for v in viols if v[1] != "harness"]
+        if harness_v and real_v:
+            # a shard that could not do its job does not silence the shards that found something
+            for dst, kind, msg in harness_v:
+                print("HARNESS-NOTE: %s (%s)" % (msg.replace("\n", " ")[:400], dst))
+            viols = real_v
+            harness_v = []
         if harness_v:
             for dst, kind, msg in harness_v:
                 print("HARNESS-ERROR: %s (%s)" % (msg.replace("\n", " ")[:800], dst))
